@@ -611,23 +611,28 @@ type c11Result struct {
 }
 
 func c11WaitUntil(d time.Duration, cond func() bool) bool {
-	// The wait expires only when BOTH the wall-clock deadline has passed AND this goroutine has itself been
-	// scheduled for d's worth of 200 microsecond sleeps: if the whole machine (or VM) stalls, the clock jumps but
-	// the tick count does not, so a stall cannot turn into an expired watchdog.
+	// The wait expires only when BOTH the wall-clock deadline has passed AND this goroutine has itself slept for a
+	// nominal total of d (50 microsecond naps, then 1 ms naps; a nap never returns early): if the whole machine (or
+	// VM) stalls, the clock jumps but the nominal total does not, so a stall cannot turn into an expired watchdog.
 	deadline := time.Now().Add(d)
-	ticks := int64(d / (200 * time.Microsecond))
+	var slept time.Duration
 	for i := 0; ; i++ {
 		if cond() {
 			return true
 		}
-		if i < 50 {
+		switch {
+		case i < 50:
 			runtime.Gosched()
-		} else {
-			time.Sleep(200 * time.Microsecond)
-			ticks--
-			if ticks <= 0 && time.Now().After(deadline) {
-				return false
-			}
+			continue
+		case i < 250:
+			time.Sleep(50 * time.Microsecond)
+			slept += 50 * time.Microsecond
+		default:
+			time.Sleep(time.Millisecond)
+			slept += time.Millisecond
+		}
+		if slept >= d && time.Now().After(deadline) {
+			return false
 		}
 	}
 }
